@@ -1,3 +1,358 @@
 import GnpyModel
-/- Property theorems for C08 (only the property theorems and their non-vacuity examples live here;
-   helper lemmas go to GnpyProofs/Lemmas). -/
+import GnpyProofs.Lemmas.ChainNum
+import GnpyProofs.Lemmas.ChainList
+import GnpyProofs.Lemmas.ChainPad
+/- Property theorems for C08 — auto-design yields a complete line system.
+   Model: GnpyModel/Chain.lean (lists of line elements between two endpoints).  Numeric statements over ℝ.
+   Helper lemmas: GnpyProofs/Lemmas/ChainNum.lean, ChainList.lean. -/
+namespace Gnpy.Chain
+
+/-! ### calculate_new_length / split_fiber -/
+
+/-- the counting loop is `int(a // b)`: `k·b ≤ a < (k+1)·b` -/
+theorem floorDiv_spec (fuel : Nat) (a b : ℝ) (ha : 0 ≤ a) (hf : a < ((fuel + 1 : Nat) : ℝ) * b) :
+    ((floorDiv fuel a b : Nat) : ℝ) * b ≤ a ∧ a < ((floorDiv fuel a b + 1 : Nat) : ℝ) * b :=
+  floorDiv_spec' fuel a b ha hf
+
+/-- a fibre shorter than `max_length` is left alone -/
+theorem calcNewLength_short (fuel : Nat) (L lo hi target : ℝ) (h : L < hi) :
+    calcNewLength fuel L lo hi target = (L, 1) := by
+  simp [calcNewLength, calcWith, h]
+
+/-- **calculate_new_length.** For every fibre length `L > 0` and bounds with `0 < target ≤ max_length`
+(always the case when `min_length ≤ max_length`): at least one span, the spans add up to `L` exactly, and no span
+is longer than `max_length`. -/
+theorem calcNewLength_spec (fuel : Nat) (L lo hi target : ℝ) (hL : 0 < L) (_ht : 0 < target) (hth : target ≤ hi)
+    (hf : L < ((fuel + 1 : Nat) : ℝ) * target) :
+    1 ≤ (calcNewLength fuel L lo hi target).2 ∧
+    ((calcNewLength fuel L lo hi target).2 : ℝ) * (calcNewLength fuel L lo hi target).1 = L ∧
+    (calcNewLength fuel L lo hi target).1 ≤ hi := by
+  obtain ⟨h1, h2⟩ := floorDiv_spec' fuel L target (le_of_lt hL) hf
+  unfold calcNewLength calcWith
+  set n2 := floorDiv fuel L target with hn2
+  by_cases hlt : L < hi
+  · simp only [hlt, if_true]
+    exact ⟨le_refl 1, by simp, le_of_lt hlt⟩
+  · simp only [hlt, if_false]
+    have hge : hi ≤ L := not_lt.mp hlt
+    -- n2 ≥ 1 because target ≤ hi ≤ L
+    have hn2pos : 1 ≤ n2 := by
+      by_contra hc
+      have h0 : n2 = 0 := by omega
+      rw [h0] at h2
+      simp at h2
+      linarith
+    have hn2r : (0:ℝ) < (n2 : ℝ) := by exact_mod_cast hn2pos
+    have hn1r : (0:ℝ) < ((n2 + 1 : Nat) : ℝ) := by positivity
+    have e1 : ((n2 + 1 : Nat) : ℝ) * (L / ((n2 + 1 : Nat) : ℝ)) = L := by field_simp
+    have e2 : (n2 : ℝ) * (L / (n2 : ℝ)) = L := by field_simp
+    have l1lt : L / ((n2 + 1 : Nat) : ℝ) ≤ hi := by
+      have : L / ((n2 + 1 : Nat) : ℝ) < target := by
+        rw [div_lt_iff₀ hn1r]; linarith [h2, mul_comm (((n2 + 1 : Nat) : ℝ)) target]
+      linarith
+    split_ifs with c1 c2 c3
+    · exact ⟨by omega, e1, c1.1.2⟩
+    · exact ⟨hn2pos, e2, c2.1.2⟩
+    · exact ⟨hn2pos, e2, c3.2⟩
+    · exact ⟨by omega, e1, l1lt⟩
+
+/-- a fibre longer than `max_length` is always split (at least two spans) -/
+theorem calcNewLength_long (fuel : Nat) (L lo hi target : ℝ) (ht : 0 < target) (hth : target ≤ hi) (h : hi < L)
+    (hf : L < ((fuel + 1 : Nat) : ℝ) * target) :
+    2 ≤ (calcNewLength fuel L lo hi target).2 := by
+  have hL : 0 < L := by linarith
+  obtain ⟨h1, h2⟩ := floorDiv_spec' fuel L target (le_of_lt hL) hf
+  obtain ⟨s1, s2, s3⟩ := calcNewLength_spec fuel L lo hi target hL ht hth hf
+  by_contra hc
+  have hn : (calcNewLength fuel L lo hi target).2 = 1 := by omega
+  rw [hn] at s2
+  simp at s2
+  linarith
+
+
+/-! ### amplifier insertion -/
+
+set_option linter.unusedSectionVars false
+
+section
+variable {α : Type} [Add α] [Sub α] [Mul α] [Div α] [Neg α] [NatCast α] [LT α] [LE α]
+  [DecidableLT α] [DecidableLE α] [Transc α]
+
+/-- **After `add_missing_elements_in_network` no fibre is directly followed by a fibre**, whatever the input line. -/
+theorem no_adjacent_fibres (c : SplitCfg α) (ch : Chain α) : NoAdjFib (addMissingLine c ch) :=
+  addInline_noAdj _
+
+/-- **ROADM–fibre junctions are amplified**: a chain leaving a ROADM does not begin with a fibre, a chain entering a
+ROADM does not end with one.  (Junctions with a Fused element, an existing amplifier or a transceiver are left
+alone, exactly as `add_roadm_booster` / `add_roadm_preamp` do: see `junction_exceptions`.) -/
+theorem roadm_fibre_junction_amplified (c : SplitCfg α) (ch : Chain α) :
+    (ch.srcKind = .roadm → ∀ e, (addMissingLine c ch).head? = some e → e.isFiber = false) ∧
+    (ch.dstKind = .roadm → ∀ e, (addMissingLine c ch).getLast? = some e → e.isFiber = false) := by
+  constructor
+  · intro hs e he
+    unfold addMissingLine at he
+    rw [addInline_head, hs] at he
+    exact addBooster_head _ _ e he
+  · intro hd e he
+    unfold addMissingLine at he
+    rw [addInline_getLast, addBooster_getLast, hd] at he
+    exact addPreamp_getLast _ _ e he
+
+/-- the deliberate exceptions: nothing is inserted at a transceiver end, nor when the neighbour of the ROADM is not
+a fibre (Fused, user amplifier) -/
+theorem junction_exceptions (src dst : String) (l : List (Elem α)) :
+    addBooster src .trx l = l ∧ addPreamp dst .trx l = l ∧
+    (∀ e t, l = e :: t → e.isFiber = false → addBooster src .roadm l = l) ∧
+    (∀ e, l.getLast? = some e → e.isFiber = false → addPreamp dst .roadm l = l) := by
+  refine ⟨by simp [addBooster], by simp [addPreamp], ?_, ?_⟩
+  · intro e t hl he
+    subst hl
+    cases e <;> simp [addBooster, Elem.isFiber] at he ⊢
+  · intro e hl he
+    unfold addPreamp
+    rw [hl]
+    cases e <;> simp [Elem.isFiber] at he ⊢
+
+/-- **The input survives in its order**: the line after splitting is a subsequence of the completed line (design only
+inserts amplifiers), and the endpoints of the chain are untouched — so which ROADMs/transceivers reach which is
+unchanged. -/
+theorem original_order_preserved (c : SplitCfg α) (ch : Chain α) :
+    List.Sublist (splitLine c ch.line) (addMissingLine c ch) := by
+  unfold addMissingLine
+  exact (addPreamp_sublist _ _ _).trans ((addBooster_sublist _ _ _).trans (addInline_sublist _))
+
+theorem addMissing_endpoints (c : SplitCfg α) (ch : Chain α) :
+    (addMissing c ch).src = ch.src ∧ (addMissing c ch).dst = ch.dst ∧
+    (addMissing c ch).srcKind = ch.srcKind ∧ (addMissing c ch).dstKind = ch.dstKind := by
+  simp [addMissing]
+
+/-- splitting touches fibres only: every other element stays in place as it is, a fibre is replaced in place by
+fibres -/
+theorem splitLine_kinds (c : SplitCfg α) (l : List (Elem α)) :
+    splitLine c l = l.flatMap (splitElem c) ∧
+    (∀ e, e.isFiber = false → splitElem c e = [e]) ∧
+    (∀ u p, ∀ x ∈ splitElem c (.fiber u p), x.isFiber = true) := by
+  refine ⟨rfl, ?_, ?_⟩
+  · intro e he
+    cases e <;> simp [splitElem, Elem.isFiber] at he ⊢
+  · intro u p x hx
+    simp only [splitElem, splitFiber] at hx
+    split at hx
+    · simp at hx; subst hx; rfl
+    · simp at hx
+      obtain ⟨k, _, hk⟩ := hx
+      subst hk; rfl
+
+/-- every fibre has both connector losses after `add_connector_loss` -/
+theorem connectors_defined (dIn dOut eol : α) (l : List (Elem α)) :
+    ∀ e ∈ addConn dIn dOut eol l, ConnOK e :=
+  addConn_connOK dIn dOut eol l
+
+end
+
+/-! ### split_fiber: equal spans with the original length and fibre loss -/
+
+/-- all spans produced from one fibre are fibres of one and the same length, with the original loss coefficient -/
+theorem split_spans_equal (c : SplitCfg ℝ) (uid : String) (p : FiberP ℝ) :
+    ∀ x ∈ splitFiber c uid p, ∃ v q, x = .fiber v q ∧ q.lossCoef = p.lossCoef ∧
+      q.length = (if (calcNewLength c.fuel p.length c.lo c.hi c.target).2 = 1 then p.length
+                  else (calcNewLength c.fuel p.length c.lo c.hi c.target).1) := by
+  intro x hx
+  simp only [splitFiber] at hx
+  split at hx
+  · rename_i h
+    simp at hx; subst hx
+    exact ⟨uid, p, rfl, rfl, by simp [h]⟩
+  · rename_i h
+    simp at hx
+    obtain ⟨k, _, hk⟩ := hx
+    subst hk
+    exact ⟨_, _, rfl, rfl, by simp [h]⟩
+
+/-- **The spans of a split fibre together have the original length and the original fibre loss.** -/
+theorem split_preserves_length_and_loss (c : SplitCfg ℝ) (uid : String) (p : FiberP ℝ)
+    (hL : 0 < p.length) (ht : 0 < c.target) (hth : c.target ≤ c.hi)
+    (hf : p.length < ((c.fuel + 1 : Nat) : ℝ) * c.target) :
+    ((splitFiber c uid p).map Elem.length).sum = p.length ∧
+    ((splitFiber c uid p).map Elem.glass).sum = p.glassLoss := by
+  obtain ⟨_, s2, _⟩ := calcNewLength_spec c.fuel p.length c.lo c.hi c.target hL ht hth hf
+  simp only [splitFiber]
+  split
+  · simp [Elem.length, Elem.glass]
+  · set r := calcNewLength c.fuel p.length c.lo c.hi c.target with hr
+    constructor
+    · simp only [List.map_map, Function.comp_def, Elem.length, List.map_const', List.length_range,
+        List.sum_replicate]
+      simpa using s2
+    · simp only [List.map_map, Function.comp_def, Elem.glass, FiberP.glassLoss, List.map_const', List.length_range,
+        List.sum_replicate]
+      rw [← s2]; simp; ring
+
+/-! ### add_fiber_padding -/
+
+/-- **Padding is reached.** A run of spliced Fiber/Fused elements whose first and last elements are fibres (the last
+one not a RamanFiber) leaves `add_fiber_padding` with loss `max(padding, loss before)`; in particular ≥ padding. -/
+theorem padding_reached (padding : ℝ) (r : List (Elem ℝ)) (u : String) (p : FiberP ℝ) (v : String) (q : FiberP ℝ)
+    (t : List (Elem ℝ)) (hr : r = .fiber v q :: t) (hl : r.getLast? = some (.fiber u p)) (hnr : p.raman = false) :
+    runLoss (padRun padding r) = max padding (runLoss r) ∧ padding ≤ runLoss (padRun padding r) := by
+  have key : runLoss (padRun padding r) = max padding (runLoss r) := by
+    unfold padRun
+    rw [hl]
+    simp only [hnr, Bool.false_eq_true, if_false]
+    by_cases hlt : runLoss r < padding
+    · simp only [hlt, if_true]
+      rw [max_eq_left (le_of_lt hlt)]
+      subst hr
+      cases t with
+      | nil =>
+        simp at hl
+        obtain ⟨h1, h2⟩ := hl
+        subst h1; subst h2
+        simp only [runLoss_eq, List.map_cons, List.map_nil, List.sum_cons, List.sum_nil]
+        simp only [Elem.loss, Elem.ramanGain, FiberP.loss, hnr, Bool.false_eq_true, if_false]
+        ring
+      | cons y t' =>
+        have hl' : (y :: t').getLast? = some (.fiber u p) := by
+          rw [List.getLast?_cons_cons] at hl; exact hl
+        have hsplit := eq_dropLast_append (y :: t') _ hl'
+        simp only [runLoss_eq]
+        have e1 : ((Elem.fiber v q :: y :: t').map Elem.loss).sum
+            = q.loss + (((y :: t').dropLast).map Elem.loss).sum + p.loss := by
+          conv_lhs => rw [hsplit]
+          simp [Elem.loss]; ring
+        have e2 : ((Elem.fiber v q :: y :: t').map Elem.ramanGain).sum
+            = (Elem.fiber v q).ramanGain + (((y :: t').dropLast).map Elem.ramanGain).sum
+              + (Elem.fiber u p).ramanGain := by
+          conv_lhs => rw [hsplit]
+          simp; ring
+        rw [e1, e2]
+        simp only [List.map_cons, List.map_append, List.map_nil, List.sum_cons, List.sum_append, List.sum_nil]
+        simp only [Elem.loss, Elem.ramanGain, FiberP.loss, hnr, Bool.false_eq_true, if_false]
+        ring
+    · simp only [hlt, if_false]
+      rw [max_eq_right (not_lt.mp hlt)]
+      have hsplit := eq_dropLast_append r _ hl
+      simp only [runLoss_eq]
+      conv_rhs => rw [hsplit]
+      simp only [List.map_append, List.map_cons, List.map_nil, List.sum_append, List.sum_cons, List.sum_nil]
+      simp only [Elem.loss, Elem.ramanGain, FiberP.loss, hnr]
+  exact ⟨key, by rw [key]; exact le_max_left _ _⟩
+
+/-- after padding, the cached `design_span_loss` of the run's last fibre IS the loss of the run (whatever `att_in` the
+first fibre carried: repaired behaviour, the unrepaired code over-counted a user `att_in`) — so the gain computation
+of C09, which reads this cache, works on the true span loss. -/
+theorem padRun_dsl (padding : ℝ) (r : List (Elem ℝ)) (u : String) (p : FiberP ℝ) (v : String) (q : FiberP ℝ)
+    (t : List (Elem ℝ)) (hr : r = .fiber v q :: t) (hl : r.getLast? = some (.fiber u p)) (hnr : p.raman = false) :
+    ∃ p', (padRun padding r).getLast? = some (.fiber u p') ∧ p'.raman = false ∧
+      p'.dsl = some (runLoss (padRun padding r)) := by
+  obtain ⟨key, _⟩ := padding_reached padding r u p v q t hr hl hnr
+  rw [key]
+  have hne : ¬ (p.raman = true) := by simp [hnr]
+  unfold padRun
+  rw [hl]
+  dsimp only
+  rw [if_neg hne]
+  by_cases hlt : runLoss r < padding
+  · rw [if_pos hlt, max_eq_left (le_of_lt hlt)]
+    subst hr
+    cases t with
+    | nil =>
+      simp at hl
+      obtain ⟨h1, h2⟩ := hl
+      subst h1; subst h2
+      refine ⟨{ q with attIn := q.attIn + padding - runLoss [Elem.fiber v q],
+                       dsl := some (runLoss [Elem.fiber v q] + (padding - runLoss [Elem.fiber v q])) },
+              ?_, hnr, ?_⟩
+      · simp
+      · simp only [Option.some.injEq]; ring
+    | cons y t' =>
+      refine ⟨{ p with dsl := some (runLoss (Elem.fiber v q :: y :: t')
+                  + (padding - runLoss (Elem.fiber v q :: y :: t'))) }, ?_, hnr, ?_⟩
+      · rw [List.getLast?_cons, List.getLast?_concat]; simp
+      · simp only [Option.some.injEq]; ring
+  · rw [if_neg hlt, max_eq_right (not_lt.mp hlt)]
+    exact ⟨{ p with dsl := some (runLoss r) }, by simp [List.getLast?_append], hnr, by simp⟩
+
+/-- **Current code, defect:** a span that begins or ends with a Fused element is never padded — `[Fused 1 dB,
+Fiber 2 dB]` and `[Fiber 2 dB, Fused 1 dB]` keep 3 dB under a padding of 10 dB. -/
+theorem padRun_fused_edge_unpadded_fails_current :
+    ∃ (padding : ℝ) (r1 r2 : List (Elem ℝ)),
+      r1.head?.map Elem.isFused = some true ∧ r2.getLast?.map Elem.isFused = some true ∧
+      runLoss (padRun padding r1) = 3 ∧ runLoss (padRun padding r2) = 3 ∧ (3:ℝ) < padding := by
+  let f : Elem ℝ := .fiber "f" { length := 10, lossCoef := 0.2, conIn := some 0, conOut := some 0, attIn := 0,
+                                 lumped := 0, raman := false, ramanGain := none, dsl := none }
+  refine ⟨10, [.fused "x" 1, f], [f, .fused "x" 1], by simp [Elem.isFused], by simp [Elem.isFused], ?_, ?_, by norm_num⟩
+  · have h : runLoss [Elem.fused "x" 1, f] < 10 := by
+      simp only [runLoss_eq]; norm_num [f, Elem.loss, FiberP.loss, Elem.ramanGain]
+    simp only [padRun, f, List.getLast?_cons_cons, List.getLast?_singleton, Bool.false_eq_true, if_false]
+    rw [if_pos h]
+    simp only [runLoss_eq]
+    norm_num [Elem.loss, FiberP.loss, Elem.ramanGain]
+  · simp only [padRun, f, List.getLast?_cons_cons, List.getLast?_singleton]
+    simp only [runLoss_eq]
+    norm_num [Elem.loss, FiberP.loss, Elem.ramanGain]
+
+/-- padding a padded run again changes nothing (needed for redesign, C17) -/
+theorem padRun_idempotent (padding : ℝ) (r : List (Elem ℝ)) (u : String) (p : FiberP ℝ) (v : String) (q : FiberP ℝ)
+    (t : List (Elem ℝ)) (hr : r = .fiber v q :: t) (hl : r.getLast? = some (.fiber u p)) (hnr : p.raman = false) :
+    padRun padding (padRun padding r) = padRun padding r := by
+  obtain ⟨key, hge⟩ := padding_reached padding r u p v q t hr hl hnr
+  obtain ⟨p', hl', hnr', hd'⟩ := padRun_dsl padding r u p v q t hr hl hnr
+  set r' := padRun padding r with hr'
+  have hsplit := eq_dropLast_append r' _ hl'
+  conv_lhs => unfold padRun
+  rw [hl']
+  simp only [hnr', Bool.false_eq_true, if_false, not_lt.mpr hge]
+  rw [← hd']
+  conv_rhs => rw [hsplit]
+  congr 2
+  cases p'
+  simp at hnr' ⊢
+  exact hnr'
+
+/-- names (partial): the uids of the completed line are the uids before inline amplification plus the generated
+`Edfa_<fibre uid>` names; hence unique as soon as those are pairwise distinct.
+Full statement (not proved): if the input uids are unique and none of them has one of the generated shapes
+`<uid>_(k/n)`, `Edfa_<uid>`, `Edfa_booster_<roadm>_to_<uid>`, `Edfa_preamp_<roadm>_from_<uid>`, then the uids of the
+designed network are unique. What is missing is the injectivity of the string formatting. -/
+theorem names_unique_partial {α : Type} [Add α] [Sub α] [Mul α] [Div α] [Neg α] [NatCast α] [LT α] [LE α]
+    [DecidableLT α] [DecidableLE α] [Transc α] (c : SplitCfg α) (ch : Chain α) :
+    let mid := addBooster ch.src ch.srcKind (addPreamp ch.dst ch.dstKind (splitLine c ch.line))
+    (mid.map Elem.uid ++ inlineNames mid).Nodup → ((addMissingLine c ch).map Elem.uid).Nodup := by
+  intro mid h
+  exact (addInline_uids mid).nodup_iff.mpr h
+
+/-- **Every amplifier ends up with a gain, an output VOA and — in power mode — a power offset and target**: the
+operating point `set_one_amplifier` computes is total (gain, `out_voa`, `in_voa` are plain numbers for every
+input), and `delta_p`, `target_pch_out_dbm` are set exactly in power mode.  (That the type_variety is a library
+model is property C10.) -/
+theorem amps_complete [Rint ℝ] (c : Cfg ℝ) (pref prefTotal pd pv : ℝ) (a : AmpIn ℝ) :
+    (c.powerMode = true → (ampStep c pref prefTotal pd pv a).deltaP.isSome = true ∧
+                          (ampStep c pref prefTotal pd pv a).targetPch.isSome = true) ∧
+    (c.powerMode = false → (ampStep c pref prefTotal pd pv a).deltaP = none ∧
+                           (ampStep c pref prefTotal pd pv a).targetPch = none) := by
+  constructor
+  · intro h
+    cases hd : a.user.deltaP <;> simp [ampStep, h, hd]
+  · intro h
+    simp [ampStep, h]
+
+/-! ### non-vacuity -/
+
+/-- the hypotheses of `calcNewLength_spec` / `calcNewLength_long` hold for the shipped configuration
+(bounds 50–150 km, target 90 km) and a 300 km fibre, which becomes 3 × 100 km -/
+example : calcNewLength 5 (300000:ℝ) 50000 150000 90000 = (100000, 3) := by
+  norm_num [calcNewLength, calcWith, floorDiv, floorDivAux, inBounds]
+
+example : (0:ℝ) < 300000 ∧ (0:ℝ) < 90000 ∧ (90000:ℝ) ≤ 150000 ∧ (300000:ℝ) < ((5 + 1 : Nat) : ℝ) * 90000 := by
+  norm_num
+
+/-- the hypotheses of `padding_reached` / `padRun_dsl` / `padRun_idempotent` are satisfiable: Fiber–Fused–Fiber -/
+example : ∃ (r : List (Elem ℝ)) (u : String) (p : FiberP ℝ) (v : String) (q : FiberP ℝ) (t : List (Elem ℝ)),
+    r = .fiber v q :: t ∧ r.getLast? = some (.fiber u p) ∧ p.raman = false ∧ runLoss r < 10 := by
+  let f : FiberP ℝ := { length := 10, lossCoef := 0.2, conIn := some 0, conOut := some 0, attIn := 1.5,
+                        lumped := 0, raman := false, ramanGain := none, dsl := none }
+  refine ⟨[.fiber "a" f, .fused "x" 1, .fiber "b" f], "b", f, "a", f, _, rfl, by simp, rfl, ?_⟩
+  simp only [runLoss_eq]; norm_num [f, Elem.loss, FiberP.loss, Elem.ramanGain]
+
+end Gnpy.Chain
